@@ -97,6 +97,10 @@ def bound(t, x):
     return x // 2 if x % 2 == 0 else x / 2.0
 
 
+def OBJ(o):
+    return "A" * 250 if o == "L" else o
+
+
 def declare(t, c, default):
     kw = {"allow_None": c["an"]}
     T = getattr(param, t)
@@ -115,7 +119,7 @@ def declare(t, c, default):
         if t == "List" and c["it"] != "none":
             kw["item_type"] = {"int": int, "str": str}[c["it"]]
     if t in ("Selector", "ListSelector"):
-        kw["objects"] = {"l" + o: o for o in sorted(c["objs"])} if c.get("dd") else sorted(c["objs"])
+        kw["objects"] = {"l" + o: OBJ(o) for o in sorted(c["objs"])} if c.get("dd") else [OBJ(o) for o in sorted(c["objs"])]
         kw["check_on_set"] = c["cos"]
     if t == "ClassSelector":
         kw["class_"] = (A, Other) if c["cls"] == "AorOther" else CLASSES[c["cls"]]
@@ -141,7 +145,7 @@ def reconfigure(p, t, c):
         if t == "List":
             p.item_type = {"int": int, "str": str, "none": None}[c["it"]]
     if t in ("Selector", "ListSelector"):
-        p.objects = {"l" + o: o for o in sorted(c["objs"])} if c.get("dd") else sorted(c["objs"])
+        p.objects = {"l" + o: OBJ(o) for o in sorted(c["objs"])} if c.get("dd") else [OBJ(o) for o in sorted(c["objs"])]
     if t == "ClassSelector":
         p.class_ = (A, Other) if c["cls"] == "AorOther" else CLASSES[c["cls"]]
     if t == "Color":
